@@ -283,6 +283,10 @@ func runC05(e *Env) {
 						if k, isK := core.ConstInt(core.Arg(add, 1)); isK && k == 247*1000000000 {
 							ok2 = true
 						}
+						// the lifetime kept in a field of the cache that its constructor sets once, to the constant
+						if k, isK := fieldWrittenOnce(e, core.Arg(add, 1)); isK && k == 247*1000000000 {
+							ok2 = true
+						}
 					}
 				}
 			}
@@ -1118,4 +1122,35 @@ func fieldOfOtherObject(f *ssa.Function, ch ssa.Value) bool {
 		return false
 	}
 	return true
+}
+
+// fieldWrittenOnce: v is a load of a struct field that is stored exactly once in the whole module, and that store writes an integer
+// constant: the constant. (A configuration constant moved into a field the constructor initialises.)
+func fieldWrittenOnce(e *Env, v ssa.Value) (int64, bool) {
+	ld, ok := core.Unwrap(v).(*ssa.UnOp)
+	if !ok || ld.Op != token.MUL {
+		return 0, false
+	}
+	owner, field, ok := core.FieldOf(ld.X)
+	if !ok {
+		return 0, false
+	}
+	n := 0
+	var val ssa.Value
+	for _, f := range e.P.AllSrcFuncs(false) {
+		core.InstrsOwn(f, func(in ssa.Instruction) {
+			st, isSt := in.(*ssa.Store)
+			if !isSt {
+				return
+			}
+			if o, fl, isF := core.FieldOf(st.Addr); isF && o == owner && fl == field {
+				n++
+				val = st.Val
+			}
+		})
+	}
+	if n != 1 {
+		return 0, false
+	}
+	return core.ConstInt(val)
 }
